@@ -268,15 +268,15 @@ inductive WAnyPA
 
 def WAnyPA.toAny : WAnyPA → WAnyA
   | .work m => .work m.toA
-  | .leaf lf => .leaf lf
+  | .leaf lf => .leaf (inoutify lf)
 
 def astAnyPA (n : Text.WNet) (r : Text.WDef) : Option WAnyPA :=
-  if r.lib == "hdi_primitives" then (astLeaf r).map WAnyPA.leaf else (astOfA n r).map WAnyPA.work
+  if r.lib == "hdi_primitives" then (astLeafU r).map WAnyPA.leaf else (astOfA n r).map WAnyPA.work
 
 theorem astAnyA_of_P (n : Text.WNet) (r : Text.WDef) : astAnyA n r = (astAnyPA n r).map WAnyPA.toAny := by
   unfold astAnyA astAnyPA
   split
-  · cases astLeaf r <;> rfl
+  · cases astLeafU r <;> rfl
   · cases astOfA n r <;> rfl
 
 theorem mapM_astAnyA (n : Text.WNet) : ∀ (Rs : List Text.WDef) (Ps : List WAnyPA), Rs.mapM (astAnyPA n) = some Ps →
@@ -319,7 +319,7 @@ theorem any_textA (n : Text.WNet) (r : Text.WDef) (P : WAnyPA) (ha : astAnyPA n 
     obtain ⟨lf, hlf, e⟩ := ha
     subst e
     simp only [Bool.and_eq_true, decide_eq_true_eq] at ht
-    exact moduleText_leaf n r lf (leafTextB_sound r ht.1) hlf ht.2
+    exact moduleText_leafU n r lf (leafTextB_sound r ht.1) hlf ht.2
   · simp only [Option.map_eq_some_iff] at ha
     obtain ⟨m, hm, e⟩ := ha
     subst e
